@@ -34,6 +34,8 @@ struct Slot {
 #[derive(Default)]
 struct CtlInner {
     park: bool,
+    /// also park *after* the backend applied a call, before the caller sees the result
+    post: bool,
     current: Option<usize>,
     parked: Vec<Arc<Slot>>,
     /// payloads of applied PUTs: (task, path, bytes)
@@ -54,6 +56,12 @@ impl std::fmt::Debug for Ctl {
 impl Ctl {
     pub fn set_park(&self, on: bool) {
         self.inner.lock().unwrap().park = on;
+    }
+    pub fn set_post(&self, on: bool) {
+        self.inner.lock().unwrap().post = on;
+    }
+    fn post(&self) -> bool {
+        self.inner.lock().unwrap().post
     }
     pub fn set_current(&self, t: Option<usize>) {
         self.inner.lock().unwrap().current = t;
@@ -155,6 +163,9 @@ impl ObjectStore for SchedStore {
         if r.is_ok() {
             self.ctl.record_put(task, location, bytes);
         }
+        if self.ctl.post() {
+            self.ctl.park('p', location).await;
+        }
         r
     }
 
@@ -164,7 +175,11 @@ impl ObjectStore for SchedStore {
 
     async fn get_opts(&self, location: &Path, options: GetOptions) -> Result<GetResult> {
         self.ctl.park('G', location).await;
-        self.inner.get_opts(location, options).await
+        let r = self.inner.get_opts(location, options).await;
+        if self.ctl.post() {
+            self.ctl.park('g', location).await;
+        }
+        r
     }
 
     fn delete_stream(&self, locations: BoxStream<'static, Result<Path>>) -> BoxStream<'static, Result<Path>> {
@@ -177,7 +192,11 @@ impl ObjectStore for SchedStore {
                 async move {
                     let location = location?;
                     ctl.park('D', &location).await;
-                    inner.delete(&location).await?;
+                    let r = inner.delete(&location).await;
+                    if ctl.post() {
+                        ctl.park('d', &location).await;
+                    }
+                    r?;
                     Ok(location)
                 }
             })
